@@ -334,6 +334,11 @@ func (w *world) seq(out *c.Out, seq int, r *c.Rng) {
 						cands = append(cands, t.Add(-1), t, t.Add(1))
 					}
 				}
+				if a.has && a.kind == "c" && a.bid.Cmp(a.maxBid) != 0 {
+					// the window in which now + ReverseBidDuration passes the max end: a bid at MaxBid placed
+					// here switches phase with the cap at MaxEndTime binding
+					cands = append(cands, a.maxEnd.Add(-ps.revDur), a.maxEnd.Add(-ps.revDur).Add(1), a.maxEnd.Add(-ps.revDur/2), a.end.Add(-1), a.end.Add(-1))
+				}
 			}
 			cands = append(cands, now.Add(time.Duration(r.Range(0, int64(ps.fwdDur)+int64(time.Second)))), now.Add(time.Duration(r.Range(0, int64(ps.revDur)+2))))
 			t := cands[r.Intn(len(cands))]
@@ -532,6 +537,22 @@ func (w *world) seq(out *c.Out, seq int, r *c.Rng) {
 					} else {
 						amt, cls = bi(0), "zero"
 					}
+				}
+			}
+			if fwd && a.kind == "c" && a.has && now.After(a.maxEnd.Add(-ps.revDur)) && !now.After(a.end) && r.Chance(60) {
+				// directed: phase switch late in the window, paid by the user who can afford it best
+				amt, cls = new(big.Int).Set(a.maxBid), "max-late"
+				for u := pUser0; u < pUser0+nUsers; u++ {
+					if pre.bals[u][a.bidD].Cmp(pre.bals[bidder][a.bidD]) > 0 {
+						bidder = u
+					}
+				}
+			} else if fwd && a.kind == "c" && a.has && !now.After(a.end) && a.end.Before(a.maxEnd) && r.Chance(25) {
+				// keep the auction alive with the smallest admissible forward bid
+				inc := incOf(a.bid, ps.incC)
+				m := new(big.Int).Add(a.bid, inc)
+				if m.Cmp(a.maxBid) < 0 {
+					amt, cls = m, "min-keepalive"
 				}
 			}
 			if r.Chance(4) {
